@@ -1,2 +1,555 @@
-static int IsoReplay(int, char **) {return 2;}
-static int IsoRandom(int, char **) {return 2;}
+// C06 part of harness/srv.cpp (included there): replay of Isolation.tla behaviours and seeded random hostile histories.
+#include <random>
+
+static const char * MODEL_SESS[] = {"s1", "s2", "s3"};
+static const char * OBS_HOST = "hO";
+
+static std::vector<std::string> SplitPath(const std::string & p)   // "/a//b" -> ["a","","b"];  "/" -> []
+{
+   std::vector<std::string> v; if (p.size() <= 1) return v;
+   size_t b = 1; while (true) {size_t s = p.find('/', b); v.push_back(p.substr(b, (s == std::string::npos) ? std::string::npos : s-b)); if (s == std::string::npos) break; b = s+1;}
+   return v;
+}
+static std::string JoinPath(const std::vector<std::string> & v, size_t n = (size_t) -1) {std::string s; for (size_t i=0; (i<v.size())&&(i<n); i++) {s += '/'; s += v[i];} return s.empty() ? "/" : s;}
+static bool IsIName(const std::string & s) {if ((s.size() < 2)||(s[0] != 'I')) return false; for (size_t i=1; i<s.size(); i++) if ((s[i] < '0')||(s[i] > '9')) return false; return true;}
+static bool ClauseMatch(const std::string & pat, const std::string & name)   // the pattern menu of the model: "*", comma list of literals, literal
+{
+   if (pat == "*") return true;
+   size_t b = 0; while (true) {size_t c = pat.find(',', b); if (pat.substr(b, (c == std::string::npos) ? std::string::npos : c-b) == name) return true; if (c == std::string::npos) break; b = c+1;}
+   return false;
+}
+static bool PatMatch(const std::vector<std::string> & pat, const std::vector<std::string> & path)
+{
+   if (pat.size() != path.size()) return false;
+   for (size_t i=0; i<pat.size(); i++) if (!ClauseMatch(pat[i], path[i])) return false;
+   return true;
+}
+
+// the observable state in canonical lines (model names for session ids)
+struct Snap {
+   std::map<std::string, uint32> tree;                               // path -> what
+   std::map<std::string, std::string> idx;                            // path -> "I0,I1"
+   std::map<std::string, std::map<std::string, uint32> > marks;       // path -> session name (or "#<id>" of an unknown session) -> count
+   std::map<std::string, std::set<std::string> > params, psub;        // session -> "name=value" ; session -> "/abs/pattern" or "rel/pattern"
+   std::set<std::string> conn;
+   std::map<std::string, std::map<std::string, uint32> > mirror;      // session -> path -> what
+   void Lines(std::set<std::string> & out) const
+   {
+      char b[64];
+      for (std::map<std::string, uint32>::const_iterator i = tree.begin(); i != tree.end(); ++i) {snprintf(b, sizeof(b), "%u", i->second); out.insert("tree " + i->first + " = " + b);}
+      for (std::map<std::string, std::string>::const_iterator i = idx.begin(); i != idx.end(); ++i) if (!i->second.empty()) out.insert("idx " + i->first + " = " + i->second);
+      for (std::map<std::string, std::map<std::string, uint32> >::const_iterator i = marks.begin(); i != marks.end(); ++i) for (std::map<std::string, uint32>::const_iterator j = i->second.begin(); j != i->second.end(); ++j) if (j->second) {snprintf(b, sizeof(b), "%u", j->second); out.insert("marks " + i->first + " " + j->first + " = " + b);}
+      for (std::map<std::string, std::set<std::string> >::const_iterator i = params.begin(); i != params.end(); ++i) for (std::set<std::string>::const_iterator j = i->second.begin(); j != i->second.end(); ++j) out.insert("param " + i->first + " " + *j);
+      for (std::map<std::string, std::set<std::string> >::const_iterator i = psub.begin(); i != psub.end(); ++i) for (std::set<std::string>::const_iterator j = i->second.begin(); j != i->second.end(); ++j) out.insert("sub " + i->first + " " + *j);
+      for (std::set<std::string>::const_iterator i = conn.begin(); i != conn.end(); ++i) out.insert("conn " + *i);
+      for (std::map<std::string, std::map<std::string, uint32> >::const_iterator i = mirror.begin(); i != mirror.end(); ++i) for (std::map<std::string, uint32>::const_iterator j = i->second.begin(); j != i->second.end(); ++j) {snprintf(b, sizeof(b), "%u", j->second); out.insert("mirror " + i->first + " " + j->first + " = " + b);}
+   }
+};
+
+// renames server-chosen index-child names "I<k>" to "I<rank among such siblings>" (the counter behind them survives node recycling, so the
+// numbers themselves are not predictable; the documentation only says the names are "chosen algorithmically by the server")
+struct Ranker {
+   std::map<std::string, std::map<std::string, std::string> > byParent;   // ORIGINAL parent path -> original name -> new name
+   void Build(const std::map<std::string, uint32> & tree)
+   {
+      std::map<std::string, std::vector<unsigned long> > kids;
+      for (std::map<std::string, uint32>::const_iterator i = tree.begin(); i != tree.end(); ++i) {std::vector<std::string> v = SplitPath(i->first); if ((v.size() >= 1)&&(IsIName(v.back()))) kids[JoinPath(v, v.size()-1)].push_back(strtoul(v.back().c_str()+1, NULL, 10));}
+      for (std::map<std::string, std::vector<unsigned long> >::iterator i = kids.begin(); i != kids.end(); ++i) {std::sort(i->second.begin(), i->second.end()); for (size_t r=0; r<i->second.size(); r++) {char a[32], b[32]; snprintf(a, sizeof(a), "I%lu", i->second[r]); snprintf(b, sizeof(b), "I%zu", r); byParent[i->first][a] = b;}}
+   }
+   std::string Name(const std::string & origParent, const std::string & nm) const
+   {
+      std::map<std::string, std::map<std::string, std::string> >::const_iterator i = byParent.find(origParent); if (i == byParent.end()) return nm;
+      std::map<std::string, std::string>::const_iterator j = i->second.find(nm); return (j == i->second.end()) ? nm : j->second;
+   }
+   std::string Path(const std::string & p) const
+   {
+      std::vector<std::string> v = SplitPath(p), o; for (size_t i=0; i<v.size(); i++) o.push_back(Name(JoinPath(v, i), v[i])); return JoinPath(o);
+   }
+   Snap Apply(const Snap & s) const
+   {
+      Snap r = s; r.tree.clear(); r.idx.clear(); r.marks.clear(); r.mirror.clear();
+      for (std::map<std::string, uint32>::const_iterator i = s.tree.begin(); i != s.tree.end(); ++i) r.tree[Path(i->first)] = i->second;
+      for (std::map<std::string, std::string>::const_iterator i = s.idx.begin(); i != s.idx.end(); ++i) {
+         std::string out, cur; const std::string & l = i->second;
+         for (size_t k=0; k<=l.size(); k++) {if ((k == l.size())||(l[k] == ',')) {if (!out.empty()) out += ','; out += Name(i->first, cur); cur.clear();} else cur += l[k];}
+         r.idx[Path(i->first)] = l.empty() ? l : out; }
+      for (std::map<std::string, std::map<std::string, uint32> >::const_iterator i = s.marks.begin(); i != s.marks.end(); ++i) r.marks[Path(i->first)] = i->second;
+      for (std::map<std::string, std::map<std::string, uint32> >::const_iterator i = s.mirror.begin(); i != s.mirror.end(); ++i) for (std::map<std::string, uint32>::const_iterator j = i->second.begin(); j != i->second.end(); ++j) r.mirror[i->first][Path(j->first)] = j->second;
+      return r;
+   }
+};
+
+struct IsoWorld {
+   World w; Client * s[3]; Client * obs;
+   std::vector<std::string> viol, drift;
+   void V(const std::string & x) {if (viol.size() < 8) viol.push_back(x);}
+   void D(const std::string & x) {if (drift.size() < 8) drift.push_back(x);}
+
+   IsoWorld() {s[0] = w.Add("s1", "hA"); s[1] = w.Add("s2", "hA"); s[2] = w.Add("s3", "hB"); obs = w.Add("obs", OBS_HOST); w.Settle();}
+   Client * By(const std::string & n) {for (int i=0; i<3; i++) if (s[i]->name == n) return s[i]; return NULL;}
+   std::string NameOfId(const std::string & id) const {for (int i=0; i<3; i++) if (s[i]->id == id) return s[i]->name; return id;}
+   std::string IdOfName(const std::string & n) const {for (int i=0; i<3; i++) if (s[i]->name == n) return s[i]->id; return n;}
+   std::string ToModelPath(const std::string & p) const {std::vector<std::string> v = SplitPath(p); for (size_t i=0; i<v.size(); i++) v[i] = NameOfId(v[i]); return JoinPath(v);}
+   // model clause -> real clause: session names (also inside comma lists) become session ids
+   std::string RealClause(const std::string & c) const
+   {
+      std::string out, cur; for (size_t k=0; k<=c.size(); k++) {if ((k == c.size())||(c[k] == ',')) {out += IdOfName(cur); if (k < c.size()) out += ','; cur.clear();} else cur += c[k];}
+      return out;
+   }
+   bool IsObsPath(const std::string & p) const {return (p.compare(0, 3, std::string("/")+OBS_HOST) == 0)&&((p.size() == 3)||(p[3] == '/'));}
+
+   // ---- reading the true state, in-process
+   void Walk(DataNode & n, Snap & out) const
+   {
+      String np; (void) n.GetNodePath(np); const std::string rp = np();
+      if ((n.GetDepth() >= 1)&&(!IsObsPath(rp))) {
+         const std::string mp = ToModelPath(rp);
+         out.tree[mp] = n.GetData()() ? n.GetData()()->what : 0;
+         if ((n.GetIndex())&&(n.GetIndex()->HasItems())) {std::string l; for (uint32 i=0; i<n.GetIndex()->GetNumItems(); i++) {if (i) l += ','; l += (*n.GetIndex())[i]()->GetNodeName()();} out.idx[mp] = l;}
+         for (ConstHashtableIterator<uint32, uint32> it(n.GetSubscribers()); it.HasData(); it++) {
+            char b[32]; snprintf(b, sizeof(b), "%u", it.GetKey()); std::string nm = NameOfId(b); if (nm == b) nm = std::string("#")+b;
+            out.marks[mp][nm] = it.GetValue(); }
+      }
+      if ((n.GetDepth() == 1)&&(IsObsPath(rp))) return;
+      for (DataNodeRefIterator it = n.GetChildIterator(); it.HasData(); it++) Walk(*it.GetValue()(), out);
+   }
+   static std::string ParamValue(const Message & m, const String & fn)
+   {
+      uint32 tc = 0, cnt = 0; (void) m.GetInfo(fn, &tc, &cnt); char b[96];
+      const String * sv; if (m.FindString(fn, &sv).IsOK()) return std::string(sv->Cstr()) + ((cnt > 1) ? "(+)" : "");
+      int32 iv; if (m.FindInt32(fn, iv).IsOK()) {snprintf(b, sizeof(b), "i32:%d", iv); return b;}
+      snprintf(b, sizeof(b), "type%u x%u", tc, cnt); return b;
+   }
+   Snap Observe()
+   {
+      Snap sn; Client * any = NULL; for (size_t i=0; i<w.cs.size(); i++) if (w.Attached(w.cs[i])) {any = w.cs[i]; break;}
+      if (any) Walk(any->sess->Root(), sn);
+      for (int i=0; i<3; i++) { Client * c = s[i];
+         if (!w.Attached(c)) continue;
+         sn.conn.insert(c->name);
+         const Message & pm = c->sess->GetParametersConst();
+         for (MessageFieldNameIterator it = pm.GetFieldNameIterator(); it.HasData(); it++) { const std::string fn = it.GetFieldName()();
+            if (fn.compare(0, 10, "SUBSCRIBE:") == 0) sn.psub[c->name].insert(ToModelPatternString(fn.substr(10)));
+            else { std::string v = ParamValue(pm, it.GetFieldName()); if (fn == PR_NAME_SESSION) v = NameOfId(v); sn.params[c->name].insert(fn + "=" + v); } }
+         for (std::map<std::string, uint32>::const_iterator j = c->mirror.begin(); j != c->mirror.end(); ++j) {
+            if (IsObsPath(j->first)) continue;
+            if ((j->first == c->root)||(j->first.compare(0, c->root.size()+1, c->root+"/") == 0)) continue;      // its own nodes are the client's own business
+            sn.mirror[c->name][ToModelPath(j->first)] = j->second; }
+      }
+      return sn;
+   }
+   std::string ToModelPatternString(const std::string & p) const
+   {
+      const bool abs = (!p.empty())&&(p[0] == '/'); std::vector<std::string> v = SplitPath(abs ? p : ("/"+p));
+      for (size_t i=0; i<v.size(); i++) { std::string out, cur; const std::string & c = v[i]; for (size_t k=0; k<=c.size(); k++) {if ((k == c.size())||(c[k] == ',')) {out += NameOfId(cur); if (k < c.size()) out += ','; cur.clear();} else cur += c[k];} v[i] = out; }
+      std::string j = JoinPath(v); return abs ? j : j.substr(1);
+   }
+
+   // ---- the property's clauses that need no model: marks = recomputed match counts, mirrors = what the subscriptions select
+   void CheckMarksAndMirrors(const Snap & sn, const char * when)
+   {
+      std::map<std::string, std::vector<std::vector<std::string> > > pats;   // session -> normalised patterns
+      for (std::map<std::string, std::set<std::string> >::const_iterator i = sn.psub.begin(); i != sn.psub.end(); ++i) for (std::set<std::string>::const_iterator j = i->second.begin(); j != i->second.end(); ++j)
+         pats[i->first].push_back(SplitPath(((*j)[0] == '/') ? *j : ("/*/*/" + *j)));
+      for (std::map<std::string, uint32>::const_iterator n = sn.tree.begin(); n != sn.tree.end(); ++n) {
+         const std::vector<std::string> path = SplitPath(n->first);
+         std::map<std::string, uint32> expect;
+         for (std::set<std::string>::const_iterator c = sn.conn.begin(); c != sn.conn.end(); ++c) {uint32 k = 0; const std::vector<std::vector<std::string> > & pp = pats[*c]; for (size_t q=0; q<pp.size(); q++) if (PatMatch(pp[q], path)) k++; if (k) expect[*c] = k;}
+         std::map<std::string, uint32> got; std::map<std::string, std::map<std::string, uint32> >::const_iterator g = sn.marks.find(n->first); if (g != sn.marks.end()) got = g->second;
+         if (got != expect) { std::string a, b; char t[48];
+            for (std::map<std::string, uint32>::iterator x = got.begin(); x != got.end(); ++x) {snprintf(t, sizeof(t), "%s:%u ", x->first.c_str(), x->second); a += t;}
+            for (std::map<std::string, uint32>::iterator x = expect.begin(); x != expect.end(); ++x) {snprintf(t, sizeof(t), "%s:%u ", x->first.c_str(), x->second); b += t;}
+            V(std::string(when) + ": subscriber marks of node " + n->first + " are {" + a + "} but the connected sessions' subscriptions give {" + b + "}"); }
+      }
+      for (std::set<std::string>::const_iterator c = sn.conn.begin(); c != sn.conn.end(); ++c) {
+         std::map<std::string, uint32> expect; const std::vector<std::vector<std::string> > & pp = pats[*c];
+         for (std::map<std::string, uint32>::const_iterator n = sn.tree.begin(); n != sn.tree.end(); ++n) {
+            const std::vector<std::string> path = SplitPath(n->first);
+            if ((path.size() >= 2)&&(path[1] == *c)) continue;
+            for (size_t q=0; q<pp.size(); q++) if (PatMatch(pp[q], path)) {expect[n->first] = n->second; break;} }
+         std::map<std::string, uint32> got; std::map<std::string, std::map<std::string, uint32> >::const_iterator g = sn.mirror.find(*c); if (g != sn.mirror.end()) got = g->second;
+         if (got != expect) { std::string d; char t[32];
+            for (std::map<std::string, uint32>::iterator x = expect.begin(); x != expect.end(); ++x) if (!got.count(x->first)) d += " missing " + x->first; else if (got[x->first] != x->second) {snprintf(t, sizeof(t), " (%u, server %u)", got[x->first], x->second); d += " stale " + x->first + t;}
+            for (std::map<std::string, uint32>::iterator x = got.begin(); x != got.end(); ++x) if (!expect.count(x->first)) d += " extra " + x->first;
+            V(std::string(when) + ": the mirror of " + *c + " differs from what its subscriptions select:" + d); }
+      }
+   }
+
+   // ---- what a client can see of another session: effective parameters and the tree through the observer's GETDATA
+   std::map<std::string, std::string> EffectiveParams(const std::set<std::string> & of)
+   {
+      std::map<std::string, std::string> out; std::vector<Client *> asked;
+      for (int i=0; i<3; i++) if ((of.count(s[i]->name))&&(s[i]->connected)&&(w.Attached(s[i]))) {s[i]->inbox.clear(); w.Send(s[i], Msg(PR_COMMAND_GETPARAMETERS)); asked.push_back(s[i]);}
+      if (asked.empty()) return out;
+      w.Settle(2);
+      static const char * vol[] = {PR_NAME_SERVER_MEM_AVAILABLE, PR_NAME_SERVER_MEM_USED, PR_NAME_SERVER_MEM_MAX, PR_NAME_SERVER_UPTIME, PR_NAME_SERVER_CURRENTTIMEUTC, PR_NAME_SERVER_CURRENTTIMELOCAL, PR_NAME_SERVER_RUNTIME};
+      for (size_t a=0; a<asked.size(); a++) { Client * c = asked[a]; std::string txt = "(no PR_RESULT_PARAMETERS reply)";
+         for (size_t k=0; k<c->inbox.size(); k++) if (c->inbox[k]()->what == PR_RESULT_PARAMETERS) { Message m(*c->inbox[k]()); for (size_t z=0; z<sizeof(vol)/sizeof(vol[0]); z++) (void) m.RemoveName(vol[z]); txt.clear();
+            std::vector<std::string> fs; for (MessageFieldNameIterator it = m.GetFieldNameIterator(); it.HasData(); it++) {Message one; (void) m.CopyName(it.GetFieldName(), one); const std::string f = Flat(one); char h[32]; snprintf(h, sizeof(h), "#%08x", (unsigned) CalculateHashCode(f.data(), (uint32) f.size())); fs.push_back(std::string(it.GetFieldName()()) + "=" + ParamValue(m, it.GetFieldName()) + h);}
+            std::sort(fs.begin(), fs.end()); for (size_t z=0; z<fs.size(); z++) {txt += fs[z]; txt += "; ";} }
+         out[c->name] = txt; }
+      return out;
+   }
+   void ObserverView(std::map<std::string, uint32> & tree, std::map<std::string, std::string> & index)
+   {
+      if ((!obs->connected)||(!w.Attached(obs))) {V("the observer session has been disconnected"); return;}
+      obs->mirror.clear(); obs->inbox.clear();
+      MessageRef g = Msg(PR_COMMAND_GETDATA); std::string p; for (int d=1; d<=7; d++) {p += "/*"; g()->AddString(PR_NAME_KEYS, p.c_str());}
+      w.Send(obs, g); w.Settle(2);
+      for (std::map<std::string, uint32>::const_iterator i = obs->mirror.begin(); i != obs->mirror.end(); ++i) if (!IsObsPath(i->first)) tree[ToModelPath(i->first)] = i->second;
+      for (size_t k=0; k<obs->inbox.size(); k++) if (obs->inbox[k]()->what == PR_RESULT_INDEXUPDATED) { const Message & m = *obs->inbox[k]();
+         for (MessageFieldNameIterator it = m.GetFieldNameIterator(B_STRING_TYPE); it.HasData(); it++) { std::string l; const String * e;
+            for (int i=0; m.FindString(it.GetFieldName(), i, &e).IsOK(); i++) {const char * c = e->Cstr(); if (c[0] == INDEX_OP_CLEARED) {l.clear(); continue;} const char * colon = strchr(c, ':'); if (!l.empty()) l += ','; l += colon ? colon+1 : "?";}
+            if ((!l.empty())&&(!IsObsPath(it.GetFieldName()()))) index[ToModelPath(it.GetFieldName()())] = l; } }
+      obs->mirror.clear(); obs->inbox.clear();
+   }
+
+   // ---- commands: model record -> Message
+   std::string RealPathString(const J & c, Client * actor, bool forSubtreeOf = true) const
+   {
+      (void) forSubtreeOf;
+      std::vector<std::string> v; for (size_t i=0; i<c["p"].size(); i++) v.push_back(RealClause(c["p"][i].str()));
+      const bool abs = c["abs"].truthy();
+      // server-chosen "I<k>" names of the sender's OWN subtree: the model's name is the rank
+      if (!abs) { DataNode * n = actor->sess->SessNode();
+         for (size_t i=0; (n)&&(i<v.size()); i++) { if (IsIName(v[i])) v[i] = RealIName(n, v[i]); DataNodeRef ch; if (n->GetChild(v[i].c_str(), ch).IsError()) break; n = ch(); } }
+      std::string s; for (size_t i=0; i<v.size(); i++) {if (i) s += '/'; s += v[i];}
+      return abs ? ("/"+s) : s;
+   }
+   static std::string RealIName(DataNode * parent, const std::string & modelName)
+   {
+      std::vector<unsigned long> ks; for (DataNodeRefIterator it = parent->GetChildIterator(); it.HasData(); it++) {const std::string nm = it.GetValue()()->GetNodeName()(); if (IsIName(nm)) ks.push_back(strtoul(nm.c_str()+1, NULL, 10));}
+      std::sort(ks.begin(), ks.end()); const unsigned long r = strtoul(modelName.c_str()+1, NULL, 10);
+      if (r < ks.size()) {char b[32]; snprintf(b, sizeof(b), "I%lu", ks[r]); return b;}
+      return modelName;
+   }
+   MessageRef Build(const J & c, Client * actor)
+   {
+      const std::string op = c["op"].str(); const std::string x = c["x"].str(); const uint32 pay = (uint32) c["pay"].i();
+      if (op == "SETDATA") { MessageRef m = Msg(PR_COMMAND_SETDATA); std::string p = RealPathString(c, actor); if (c["abs"].truthy() && c["p"].size() == 0) p = "/";
+         (void) m()->AddMessage(p.c_str(), Msg(pay)); if (x == "index") {SetDataNodeFlags f; f.SetBit(SETDATANODE_FLAG_ADDTOINDEX); (void) m()->AddFlat(PR_NAME_FLAGS, f);} return m; }
+      if (op == "REMOVEDATA") {MessageRef m = Msg(PR_COMMAND_REMOVEDATA); (void) m()->AddString(PR_NAME_KEYS, RealPathString(c, actor).c_str()); return m;}
+      if (op == "INSERTORDEREDDATA") {MessageRef m = Msg(PR_COMMAND_INSERTORDEREDDATA); (void) m()->AddString(PR_NAME_KEYS, RealPathString(c, actor).c_str()); (void) m()->AddMessage(BeforeName(c, actor, false).c_str(), Msg(pay)); return m;}
+      if (op == "REORDERDATA") {MessageRef m = Msg(PR_COMMAND_REORDERDATA); (void) m()->AddString(RealPathString(c, actor).c_str(), BeforeName(c, actor, true).c_str()); return m;}
+      if ((op == "KICK")||(op == "ADDBANS")||(op == "REMOVEBANS")||(op == "ADDREQUIRES")||(op == "REMOVEREQUIRES")) {
+         const uint32 wc = (op == "KICK") ? PR_COMMAND_KICK : (op == "ADDBANS") ? PR_COMMAND_ADDBANS : (op == "REMOVEBANS") ? PR_COMMAND_REMOVEBANS : (op == "ADDREQUIRES") ? PR_COMMAND_ADDREQUIRES : PR_COMMAND_REMOVEREQUIRES;
+         MessageRef m = Msg(wc); (void) m()->AddString(PR_NAME_KEYS, RealPathString(c, actor).c_str()); return m; }
+      if (op == "SETPARAM") { MessageRef m = Msg(PR_COMMAND_SETPARAMETERS); const std::string v = c["v"].str();
+         if (x == PR_NAME_PRIVILEGE_BITS) (void) m()->AddInt32(x.c_str(), atoi(v.c_str())); else (void) m()->AddString(x.c_str(), (x == PR_NAME_SESSION) ? IdOfName(v).c_str() : v.c_str());
+         return m; }
+      if (op == "SUBSCRIBE") {MessageRef m = Msg(PR_COMMAND_SETPARAMETERS); (void) m()->AddBool((std::string("SUBSCRIBE:") + RealPathString(c, actor)).c_str(), true); return m;}
+      if (op == "REMOVEPARAM") { MessageRef m = Msg(PR_COMMAND_REMOVEPARAMETERS);
+         if (x == "SUBSCRIBE:") (void) m()->AddString(PR_NAME_KEYS, (String("SUBSCRIBE:") + EscapeRegexTokens(RealPathString(c, actor).c_str())));
+         else (void) m()->AddString(PR_NAME_KEYS, x.c_str());
+         return m; }
+      if (op == "MSG") {MessageRef m = Msg(1234); if (c["p"].size() > 0) (void) m()->AddString(PR_NAME_KEYS, RealPathString(c, actor).c_str()); (void) m()->AddString(PR_NAME_SESSION, IdOfName(x).c_str()); (void) m()->AddInt32("forged", 1); return m;}
+      if (op == "BATCH") {MessageRef m = Msg(PR_COMMAND_BATCH); for (size_t i=0; i<c["sub"].size(); i++) (void) m()->AddMessage(PR_NAME_KEYS, Build(c["sub"][i], actor)); return m;}
+      fprintf(stderr, "unknown model command %s\n", op.c_str()); exit(11);
+   }
+   std::string BeforeName(const J & c, Client * actor, bool ofParent) const
+   {
+      const std::string x = c["x"].str(); if ((!IsIName(x))||(c["abs"].truthy())) return x;
+      DataNode * n = actor->sess->SessNode(); const size_t upto = c["p"].size() - (ofParent ? 1 : 0);
+      for (size_t i=0; (n)&&(i<upto); i++) {std::string cl = RealClause(c["p"][i].str()); if (IsIName(cl)) cl = RealIName(n, cl); DataNodeRef ch; if (n->GetChild(cl.c_str(), ch).IsError()) return x; n = ch();}
+      return n ? RealIName(n, x) : x;
+   }
+   static bool HasPrivileged(const J & c) {const std::string op = c["op"].str(); if ((op == "KICK")||(op == "ADDBANS")||(op == "REMOVEBANS")||(op == "ADDREQUIRES")||(op == "REMOVEREQUIRES")) return true; for (size_t i=0; i<c["sub"].size(); i++) if (HasPrivileged(c["sub"][i])) return true; return false;}
+   static int CountOp(const J & c, const char * op) {int k = (c["op"].str() == op) ? 1 : 0; for (size_t i=0; i<c["sub"].size(); i++) k += CountOp(c["sub"][i], op); return k;}
+   static bool HasOp(const J & c, const char * op) {return CountOp(c, op) > 0;}
+   static int CountPrivileged(const J & c) {return CountOp(c, "KICK")+CountOp(c, "ADDBANS")+CountOp(c, "REMOVEBANS")+CountOp(c, "ADDREQUIRES")+CountOp(c, "REMOVEREQUIRES");}
+
+   // the client's side of the subscription protocol: after it removed subscriptions it drops what its remaining ones do not select
+   void PruneMirror(Client * c)
+   {
+      std::vector<std::vector<std::string> > pats; const Message & pm = c->sess->GetParametersConst();
+      for (MessageFieldNameIterator it = pm.GetFieldNameIterator(); it.HasData(); it++) {const std::string fn = it.GetFieldName()(); if (fn.compare(0, 10, "SUBSCRIBE:") == 0) {const std::string p = fn.substr(10); pats.push_back(SplitPath((p[0] == '/') ? p : ("/*/*/"+p)));}}
+      for (std::map<std::string, uint32>::iterator i = c->mirror.begin(); i != c->mirror.end(); ) {bool keep = false; const std::vector<std::string> path = SplitPath(i->first); for (size_t q=0; q<pats.size(); q++) if (PatMatch(pats[q], path)) keep = true; if (keep) ++i; else c->mirror.erase(i++);}
+   }
+
+   void Setup()
+   {
+      Client * b = s[1]; Client * c = s[2];
+      SetDataNodeFlags fi; fi.SetBit(SETDATANODE_FLAG_ADDTOINDEX);
+      {MessageRef m = Msg(PR_COMMAND_SETDATA); m()->AddMessage("a", Msg(1)); m()->AddMessage("a/b", Msg(2)); w.Send(b, m);}
+      {MessageRef m = Msg(PR_COMMAND_SETDATA); m()->AddFlat(PR_NAME_FLAGS, fi); m()->AddMessage("a/I0", Msg(3)); m()->AddMessage("a/I1", Msg(4)); w.Send(b, m);}
+      {MessageRef m = Msg(PR_COMMAND_SETDATA); m()->AddMessage("c", Msg(1)); w.Send(b, m);}
+      {MessageRef m = Msg(PR_COMMAND_SETPARAMETERS); m()->AddString("myparam", "7"); m()->AddBool("SUBSCRIBE:*", true); m()->AddBool("SUBSCRIBE:a/*", true); w.Send(b, m);}
+      {MessageRef m = Msg(PR_COMMAND_SETDATA); m()->AddMessage("a", Msg(1)); w.Send(c, m);}
+      {MessageRef m = Msg(PR_COMMAND_SETPARAMETERS); m()->AddBool("SUBSCRIBE:*/*", true); m()->AddBool("SUBSCRIBE:/*/*", true); w.Send(c, m);}
+      w.Settle();
+   }
+
+   // compares the observed state with the state the specification expects.  actor == "" : every difference is the property's business
+   void CompareWithModel(const Snap & got, const J & exp, const std::string & actor, bool isDepart, const char * when)
+   {
+      Snap e;
+      for (size_t i=0; i<exp["tree"].size(); i++) e.tree[JPath(exp["tree"][i][(size_t)0])] = (uint32) exp["tree"][i][(size_t)1].i();
+      for (size_t i=0; i<exp["idx"].size(); i++) {std::string l; const J & q = exp["idx"][i][(size_t)1]; for (size_t k=0; k<q.size(); k++) {if (k) l += ','; l += q[k].str();} e.idx[JPath(exp["idx"][i][(size_t)0])] = l;}
+      for (size_t i=0; i<exp["marks"].size(); i++) e.marks[JPath(exp["marks"][i][(size_t)0])][exp["marks"][i][(size_t)1].str()] = (uint32) exp["marks"][i][(size_t)2].i();
+      for (size_t i=0; i<exp["params"].size(); i++) e.params[exp["params"][i][(size_t)0].str()].insert(exp["params"][i][(size_t)1].str() + "=" + exp["params"][i][(size_t)2].str());
+      for (size_t i=0; i<exp["psub"].size(); i++) {std::string p = JPath(exp["psub"][i][(size_t)2]); e.psub[exp["psub"][i][(size_t)0].str()].insert(exp["psub"][i][(size_t)1].truthy() ? p : p.substr(1));}
+      for (size_t i=0; i<exp["conn"].size(); i++) e.conn.insert(exp["conn"][i].str());
+      for (size_t i=0; i<exp["mirror"].size(); i++) e.mirror[exp["mirror"][i][(size_t)0].str()][JPath(exp["mirror"][i][(size_t)1])] = (uint32) exp["mirror"][i][(size_t)2].i();
+      Ranker rg, re; rg.Build(got.tree); re.Build(e.tree);
+      std::set<std::string> lg, le; rg.Apply(got).Lines(lg); re.Apply(e).Lines(le);
+      const std::string aroot = actor.empty() ? std::string("//") : (std::string((actor == "s3") ? "/hB/" : "/hA/") + actor);
+      for (int pass=0; pass<2; pass++) { const std::set<std::string> & a = pass ? le : lg; const std::set<std::string> & b = pass ? lg : le;
+         for (std::set<std::string>::const_iterator i = a.begin(); i != a.end(); ++i) if (!b.count(*i)) {
+            bool own = false;
+            if ((!isDepart)&&(!actor.empty())) { const std::string & l = *i; size_t sp = l.find(' '); const std::string sect = l.substr(0, sp), rest = l.substr(sp+1);
+               if ((sect == "tree")||(sect == "idx")) own = (rest.compare(0, aroot.size()+1, aroot+"/") == 0)||(rest.compare(0, aroot.size()+1, aroot+" ") == 0);
+               else if (sect == "marks") {const size_t s2 = rest.find(' '); const std::string path = rest.substr(0, s2); const std::string who = rest.substr(s2+1, rest.find(' ', s2+1)-s2-1); own = (who == actor)||(path.compare(0, aroot.size()+1, aroot+"/") == 0)||(path == aroot);}
+               else if ((sect == "param")||(sect == "sub")||(sect == "mirror")) own = (rest.compare(0, actor.size()+1, actor+" ") == 0);
+               else if (sect == "conn") own = (rest == actor); }
+            const std::string msg = std::string(when) + (pass ? ": expected by the specification but not observed: [" : ": observed but not expected by the specification: [") + *i + "]";
+            if (own) D(msg); else V(msg); } }
+   }
+   static std::string JPath(const J & a) {std::string s; for (size_t i=0; i<a.size(); i++) {s += '/'; s += a[i].str();} return s.empty() ? "/" : s;}
+};
+
+// projection of one session out of a snapshot (plus what clients can see of it), as text, for the before/after frame comparison
+static std::string ProjText(const Snap & sn, const std::string & name, const std::map<std::string, uint32> & otree, const std::map<std::string, std::string> & oidx, const std::map<std::string, std::string> & eff)
+{
+   const std::string root = std::string((name == "s3") ? "/hB/" : "/hA/") + name; std::string t; char b[48];
+   for (std::map<std::string, uint32>::const_iterator i = sn.tree.begin(); i != sn.tree.end(); ++i) if ((i->first == root)||(i->first.compare(0, root.size()+1, root+"/") == 0)) {snprintf(b, sizeof(b), "=%u\n", i->second); t += "node " + i->first + b;}
+   for (std::map<std::string, std::string>::const_iterator i = sn.idx.begin(); i != sn.idx.end(); ++i) if ((i->first == root)||(i->first.compare(0, root.size()+1, root+"/") == 0)) t += "index " + i->first + "=" + i->second + "\n";
+   for (std::map<std::string, uint32>::const_iterator i = otree.begin(); i != otree.end(); ++i) if ((i->first == root)||(i->first.compare(0, root.size()+1, root+"/") == 0)) {snprintf(b, sizeof(b), "=%u\n", i->second); t += "seen-by-observer " + i->first + b;}
+   for (std::map<std::string, std::string>::const_iterator i = oidx.begin(); i != oidx.end(); ++i) if ((i->first == root)||(i->first.compare(0, root.size()+1, root+"/") == 0)) t += "index-seen-by-observer " + i->first + "=" + i->second + "\n";
+   std::map<std::string, std::set<std::string> >::const_iterator p = sn.params.find(name); if (p != sn.params.end()) for (std::set<std::string>::const_iterator j = p->second.begin(); j != p->second.end(); ++j) t += "parameter " + *j + "\n";
+   p = sn.psub.find(name); if (p != sn.psub.end()) for (std::set<std::string>::const_iterator j = p->second.begin(); j != p->second.end(); ++j) t += "subscription " + *j + "\n";
+   std::map<std::string, std::string>::const_iterator e = eff.find(name); if (e != eff.end()) t += "GETPARAMETERS " + e->second + "\n";
+   t += sn.conn.count(name) ? "connected\n" : "NOT connected\n";
+   return t;
+}
+static std::string FirstDiff(const std::string & a, const std::string & b)
+{
+   std::set<std::string> la, lb; size_t p = 0; while (p < a.size()) {size_t e = a.find('\n', p); la.insert(a.substr(p, e-p)); p = e+1;} p = 0; while (p < b.size()) {size_t e = b.find('\n', p); lb.insert(b.substr(p, e-p)); p = e+1;}
+   std::string d; int k = 0; for (std::set<std::string>::iterator i = la.begin(); (i != la.end())&&(k < 4); ++i) if (!lb.count(*i)) {d += " -[" + *i + "]"; k++;}
+   for (std::set<std::string>::iterator i = lb.begin(); (i != lb.end())&&(k < 8); ++i) if (!la.count(*i)) {d += " +[" + *i + "]"; k++;}
+   return d;
+}
+
+struct FullView { Snap sn; std::map<std::string, uint32> otree; std::map<std::string, std::string> oidx; std::map<std::string, std::string> eff; };
+static void TakeView(IsoWorld & iw, FullView & v, const std::set<std::string> & paramsOf)
+{
+   v.eff = iw.EffectiveParams(paramsOf);
+   iw.ObserverView(v.otree, v.oidx);
+   v.sn = iw.Observe();
+   // the two ways of reading the tree must agree (else one of the observers is lying and the frame comparison means nothing)
+   std::map<std::string, uint32> wt = v.sn.tree;
+   if (wt != v.otree) { std::string d; for (std::map<std::string, uint32>::iterator i = wt.begin(); i != wt.end(); ++i) if (!v.otree.count(i->first)) d += " only-in-process " + i->first; for (std::map<std::string, uint32>::iterator i = v.otree.begin(); i != v.otree.end(); ++i) if (!wt.count(i->first)) d += " only-GETDATA " + i->first;
+      iw.V("the tree read by the observer's GETDATA differs from the tree walked in-process:" + d); }
+}
+
+// one command of one session, with every monitor; returns the view after the step
+static void DoCommandStep(IsoWorld & iw, const J & step, FullView & before, FullView & after, const char * when)
+{
+   const std::string who = step["who"].str(); Client * actor = iw.By(who); const J & cmd = step["cmd"];
+   if ((!actor)||(!actor->connected)) {iw.D(std::string(when) + ": acting session is not connected"); after = before; return;}
+   for (int i=0; i<3; i++) iw.s[i]->inbox.clear(); iw.obs->inbox.clear();
+   MessageRef m = iw.Build(cmd, actor);
+   SetStage(when);
+   iw.w.Send(actor, m); iw.w.Settle();
+   if (IsoWorld::HasOp(cmd, "REMOVEPARAM")) iw.PruneMirror(actor);
+   // replies the documentation promises: a privileged command from an unprivileged session is bounced with PR_RESULT_ERRORACCESSDENIED
+   { int denied = 0; for (size_t k=0; k<actor->inbox.size(); k++) if (actor->inbox[k]()->what == PR_RESULT_ERRORACCESSDENIED) denied++;
+     const int want = IsoWorld::CountPrivileged(cmd);
+     if ((actor->connected)&&(iw.w.Attached(actor))&&(denied != want)) {char b[160]; snprintf(b, sizeof(b), "%s: %d privileged command(s) sent without privilege, %d PR_RESULT_ERRORACCESSDENIED replies", when, want, denied); iw.V(b);} }
+   // a forged "session" field of a client-to-client Message must arrive as the sender's id
+   if (IsoWorld::HasOp(cmd, "MSG")) { int copies = 0;
+      for (size_t ci=0; ci<iw.w.cs.size(); ci++) { Client * c = iw.w.cs[ci]; if (c == actor) continue;
+         for (size_t k=0; k<c->inbox.size(); k++) if (c->inbox[k]()->what == 1234) {copies++; const String * sv; if ((c->inbox[k]()->FindString(PR_NAME_SESSION, &sv).IsError())||(std::string(sv->Cstr()) != actor->id)) iw.V(std::string(when) + ": a client-to-client Message arrived at " + c->name + " with session field [" + (sv ? sv->Cstr() : "") + "] instead of the sender's id");} }
+      if (copies == 0) iw.D(std::string(when) + ": the client-to-client Message reached nobody"); }
+   std::set<std::string> others, all3; for (int i=0; i<3; i++) {all3.insert(iw.s[i]->name); if (iw.s[i]->name != who) others.insert(iw.s[i]->name);}
+   TakeView(iw, after, all3);
+   // FRAME: every other session's projection is what it was
+   for (std::set<std::string>::iterator o = others.begin(); o != others.end(); ++o) {
+      const std::string pb = ProjText(before.sn, *o, before.otree, before.oidx, before.eff), pa = ProjText(after.sn, *o, after.otree, after.oidx, after.eff);
+      if (pb != pa) iw.V(std::string(when) + ": a command of " + who + " changed the projection of " + *o + ":" + FirstDiff(pb, pa)); }
+   // nobody but the sender may have been disconnected, and hosts of others stay
+   for (int i=0; i<3; i++) if ((iw.s[i]->name != who)&&(before.sn.conn.count(iw.s[i]->name))&&((!iw.w.Attached(iw.s[i]))||(iw.s[i]->peerClosed))) iw.V(std::string(when) + ": a command of " + who + " disconnected " + iw.s[i]->name);
+   if ((iw.w.Attached(actor))&&(actor->sess->GetParametersConst().HasName(PR_NAME_PRIVILEGE_BITS))) iw.V(std::string(when) + ": the session obtained privilege bits");
+   iw.CheckMarksAndMirrors(after.sn, when);
+   if (step.has("st")) iw.CompareWithModel(after.sn, step["st"], who, false, when);
+}
+
+// what must hold after `who` has gone: no node, no mark, no mirror entry of it anywhere; everybody else as before
+static void CheckErased(IsoWorld & iw, const std::string & who, const FullView * before, FullView & after, const char * when)
+{
+   Client * d = iw.By(who);
+   if (iw.w.Attached(d)) iw.V(std::string(when) + ": the session whose connection ended is still attached to the server");
+   const std::string root = std::string((who == "s3") ? "/hB/" : "/hA/") + who;
+   for (std::map<std::string, uint32>::iterator i = after.sn.tree.begin(); i != after.sn.tree.end(); ++i) if ((i->first == root)||(i->first.compare(0, root.size()+1, root+"/") == 0)) iw.V(std::string(when) + ": node " + i->first + " of the departed session remains");
+   for (std::map<std::string, uint32>::iterator i = after.otree.begin(); i != after.otree.end(); ++i) if ((i->first == root)||(i->first.compare(0, root.size()+1, root+"/") == 0)) iw.V(std::string(when) + ": the observer still gets node " + i->first + " of the departed session");
+   // host node: exists exactly while a session of that host is attached
+   { const std::string host = (who == "s3") ? "/hB" : "/hA"; bool any = false; for (int i=0; i<3; i++) if ((iw.w.Attached(iw.s[i]))&&(iw.s[i]->host == host.substr(1))) any = true;
+     if (after.sn.tree.count(host) != (any ? 1u : 0u)) iw.V(std::string(when) + ": host node " + host + (any ? " vanished although a session of that host remains" : " remains although its last session has gone")); }
+   for (std::map<std::string, std::map<std::string, uint32> >::iterator i = after.sn.marks.begin(); i != after.sn.marks.end(); ++i) for (std::map<std::string, uint32>::iterator j = i->second.begin(); j != i->second.end(); ++j)
+      if ((j->second)&&((j->first == who)||(j->first[0] == '#'))) iw.V(std::string(when) + ": node " + i->first + " still carries a subscriber mark of " + j->first);
+   for (std::map<std::string, std::map<std::string, uint32> >::iterator i = after.sn.mirror.begin(); i != after.sn.mirror.end(); ++i) for (std::map<std::string, uint32>::iterator j = i->second.begin(); j != i->second.end(); ++j)
+      if ((j->first == root)||(j->first.compare(0, root.size()+1, root+"/") == 0)) iw.V(std::string(when) + ": subscriber " + i->first + " was not told that " + j->first + " is gone");
+   if (before) for (int i=0; i<3; i++) if ((iw.s[i]->name != who)&&(before->sn.conn.count(iw.s[i]->name))) {
+      const std::string pb = ProjText(before->sn, iw.s[i]->name, before->otree, before->oidx, before->eff), pa = ProjText(after.sn, iw.s[i]->name, after.otree, after.oidx, after.eff);
+      if (pb != pa) iw.V(std::string(when) + ": the departure of " + who + " changed the projection of " + iw.s[i]->name + ":" + FirstDiff(pb, pa)); }
+   iw.CheckMarksAndMirrors(after.sn, when);
+}
+
+// the subscriptions the model says the remaining sessions hold must still deliver: the observer sets and removes probe nodes
+static void Probe(IsoWorld & iw, const J & expState, const char * when)
+{
+   if ((!iw.obs->connected)||(!iw.w.Attached(iw.obs))) return;
+   std::map<std::string, std::vector<std::vector<std::string> > > pats;
+   for (size_t i=0; i<expState["psub"].size(); i++) {std::vector<std::string> v; if (!expState["psub"][i][(size_t)1].truthy()) {v.push_back("*"); v.push_back("*");} const J & p = expState["psub"][i][(size_t)2]; for (size_t k=0; k<p.size(); k++) v.push_back(iw.RealClause(p[k].str())); pats[expState["psub"][i][(size_t)0].str()].push_back(v);}
+   {MessageRef m = Msg(PR_COMMAND_SETDATA); m()->AddMessage("a", Msg(11)); m()->AddMessage("a/b", Msg(12)); m()->AddMessage("q", Msg(13)); iw.w.Send(iw.obs, m); iw.w.Settle();}
+   const char * rel[] = {"a", "a/b", "q"}; const uint32 pay[] = {11, 12, 13};
+   for (int i=0; i<3; i++) { Client * c = iw.s[i]; if ((!c->connected)||(!iw.w.Attached(c))) continue;
+      for (int k=0; k<3; k++) { const std::string path = iw.obs->root + "/" + rel[k]; bool sel = false; const std::vector<std::vector<std::string> > & pp = pats[c->name];
+         for (size_t q=0; q<pp.size(); q++) if (PatMatch(pp[q], SplitPath(path))) sel = true;
+         const bool has = (c->mirror.count(path) > 0)&&(c->mirror[path] == pay[k]);
+         if (sel != has) iw.V(std::string(when) + ": probe node " + rel[k] + " set by the observer " + (has ? "WAS" : "was NOT") + " reported to " + c->name + ", whose subscriptions " + (sel ? "select it" : "do not select it")); } }
+   {MessageRef m = Msg(PR_COMMAND_REMOVEDATA); m()->AddString(PR_NAME_KEYS, "*"); iw.w.Send(iw.obs, m); iw.w.Settle();}
+   for (int i=0; i<3; i++) { Client * c = iw.s[i]; if ((!c->connected)||(!iw.w.Attached(c))) continue;
+      for (int k=0; k<3; k++) {const std::string path = iw.obs->root + "/" + rel[k]; if (c->mirror.count(path)) {iw.V(std::string(when) + ": removal of probe node " + rel[k] + " was not reported to " + c->name); c->mirror.erase(path);}} }
+}
+
+static J IsoRow(const J & beh, IsoWorld & iw, const char * extra = NULL)
+{
+   J row = J::Obj(); row.set("behaviour", beh["id"]);
+   if (!iw.viol.empty()) row.set("violations", StrList(iw.viol));
+   if (!iw.drift.empty()) row.set("drift", StrList(iw.drift));
+   if (extra) row.set("where", J::Str(extra));
+   row.set("steps", beh["steps"]);
+   return row;
+}
+
+static long g_isoSteps = 0, g_isoRuns = 0, g_isoCutRuns = 0, g_isoFollowed = 0, g_isoDrifted = 0, g_isoProbes = 0;
+
+// replays one behaviour step by step
+static void IsoBehaviour(const J & beh, std::mt19937 & rng)
+{
+   IsoWorld iw; iw.Setup(); g_isoRuns++;
+   FullView cur, nxt; std::set<std::string> all; all.insert("s1"); all.insert("s2"); all.insert("s3");
+   TakeView(iw, cur, all);
+   iw.CheckMarksAndMirrors(cur.sn, "after the setup");
+   if (beh.has("init")) iw.CompareWithModel(cur.sn, beh["init"], "", false, "after the setup");
+   const J & steps = beh["steps"]; const J * lastSt = beh.has("init") ? &beh["init"] : NULL;
+   for (size_t i=0; (i<steps.size())&&(iw.viol.empty()); i++) { const J & st = steps[i]; char when[96]; snprintf(when, sizeof(when), "step %zu (%s %s)", i+1, st["a"].str().c_str(), st["who"].str().c_str());
+      g_isoSteps++;
+      if (st["a"].str() == "Cmd") {nxt = FullView(); DoCommandStep(iw, st, cur, nxt, when); cur = nxt;}
+      else { // Depart: the client closes; for odd behaviours in the middle of a Message it had begun to send
+         Client * d = iw.By(st["who"].str()); if ((!d)||(!d->connected)) {iw.D(std::string(when) + ": not connected"); continue;}
+         SetStage(when);
+         if (beh["partial"].truthy()) { MessageRef pm = Msg(PR_COMMAND_SETDATA); pm()->AddMessage("late", Msg(5)); pm()->AddMessage("late/x", Msg(6)); const std::string wb = Wire(*pm());
+            const size_t k = 1 + (rng() % (wb.size()-1)); d->Flush(); ssize_t r = write(d->sock.GetFileDescriptor(), wb.data(), k); (void) r; if (rng() & 1) iw.w.PumpOnce(); }
+         iw.w.Close(d); iw.w.Settle();
+         nxt = FullView(); TakeView(iw, nxt, all);
+         CheckErased(iw, d->name, &cur, nxt, when);
+         if (st.has("st")) iw.CompareWithModel(nxt.sn, st["st"], d->name, true, when);
+         cur = nxt; }
+      if (st.has("st")) lastSt = &st["st"];
+   }
+   if ((iw.viol.empty())&&(lastSt)&&(beh["probe"].truthy())) {Probe(iw, *lastSt, "probing after the last step"); g_isoProbes++;}
+   if (iw.viol.empty()) {if (iw.drift.empty()) g_isoFollowed++; else g_isoDrifted++;}
+   if ((!iw.viol.empty())||(!iw.drift.empty())) {if (!iw.viol.empty()) g_violCases++; RepJ(IsoRow(beh, iw));}
+}
+
+// a behaviour whose last step is the departure of the session that sent all the commands: its whole outgoing byte stream is cut after
+// EVERY prefix 0..L, written in one piece or byte by byte with the event loop running in between; the end state must always be the erased one
+static void IsoAllCuts(const J & beh, int everyNth)
+{
+   const J & steps = beh["steps"]; const size_t ns = steps.size(); if (ns < 1) return;
+   const std::string who = steps[ns-1]["who"].str();
+   size_t L = 0;
+   for (int mode=0; mode<2; mode++) for (size_t cut=0; (mode == 0 && cut == 0) || cut <= L; cut++) {
+      IsoWorld iw; iw.Setup(); g_isoRuns++; g_isoCutRuns++;
+      Client * d = iw.By(who);
+      // the stream: the Messages the model commands stand for, built against the state after the setup (no server-chosen names are referenced in these histories)
+      std::string stream; for (size_t i=0; i+1<ns; i++) stream += Wire(*iw.Build(steps[i]["cmd"], d)());
+      L = stream.size();
+      FullView before, after; std::set<std::string> rest; for (int i=0; i<3; i++) if (iw.s[i]->name != who) rest.insert(iw.s[i]->name);
+      TakeView(iw, before, rest);
+      char when[128]; snprintf(when, sizeof(when), "departure of %s with its %zu-byte stream cut after %zu bytes (%s)", who.c_str(), L, cut, mode ? "byte by byte" : "one piece"); SetStage(when);
+      const int fd = d->sock.GetFileDescriptor();
+      if (mode == 0) {ssize_t r = write(fd, stream.data(), cut); (void) r; if (cut & 1) iw.w.PumpOnce();}
+      else for (size_t i=0; i<cut; i++) {ssize_t r = write(fd, &stream[i], 1); (void) r; if ((i % everyNth) == 0) iw.w.PumpOnce();}
+      iw.w.Close(d); iw.w.Settle();
+      // clients that lost subscriptions of their own do not exist here: only the departing session unsubscribes
+      TakeView(iw, after, rest);
+      CheckErased(iw, who, &before, after, when);
+      iw.CompareWithModel(after.sn, steps[ns-1]["st"], who, true, when);
+      if (!iw.viol.empty()) {g_violCases++; J row = IsoRow(beh, iw, when); row.set("cut", J::Int((int64_t) cut)); row.set("mode", J::Str(mode ? "bytewise" : "onepiece")); RepJ(row); return;}
+   }
+   g_isoFollowed++;
+}
+
+static int IsoReplay(int argc, char ** argv)
+{
+   if (argc < 5) return 2;
+   std::vector<J> behs; if (!ReadCases(argv[2], behs)) {fprintf(stderr, "cannot read %s\n", argv[2]); return 3;}
+   if (!OpenReport(argv[3])) return 3;
+   std::mt19937 rng((unsigned) atoi(argv[4])); const int everyNth = (argc > 5) ? atoi(argv[5]) : 1;
+   const double t0 = Now();
+   for (size_t i=0; (i<behs.size())&&(g_violCases < 25); i++) { g_cases++;
+      SetCur(mj::ToString(behs[i]).substr(0, 6000));
+      if (behs[i]["cuts"].str() == "all") IsoAllCuts(behs[i], everyNth < 1 ? 1 : everyNth); else IsoBehaviour(behs[i], rng); }
+   J s = J::Obj(); s.set("summary", J::Bool(true)).set("behaviours", J::Int(g_cases)).set("followed", J::Int(g_isoFollowed)).set("drifted", J::Int(g_isoDrifted)).set("violating_cases", J::Int(g_violCases))
+      .set("steps", J::Int(g_isoSteps)).set("server_runs", J::Int(g_isoRuns)).set("cut_runs", J::Int(g_isoCutRuns)).set("probes", J::Int(g_isoProbes)).set("wall_ms", J::Int((int64_t) ((Now()-t0)*1000)));
+   RepJ(s); return 0;
+}
+
+static int IsoRandom(int argc, char ** argv)
+{
+   // srv isorand <menu.json> <histories> <steps> <seed> <report> <trace> <ntraces>
+   if (argc < 9) return 2;
+   std::vector<J> menuFile; if ((!ReadCases(argv[2], menuFile))||(menuFile.empty())) {fprintf(stderr, "cannot read the menu %s\n", argv[2]); return 3;}
+   const J & menu = menuFile[0]["menu"]; const J init = menuFile[0]["init"];
+   const int nh = atoi(argv[3]), nsteps = atoi(argv[4]); const unsigned seed = (unsigned) atoi(argv[5]);
+   if (!OpenReport(argv[6])) return 3;
+   FILE * tf = fopen(argv[7], "w"); if (!tf) return 3; const int ntr = atoi(argv[8]);
+   const double t0 = Now(); long traces = 0, lines = 0;
+   for (int h=0; (h<nh)&&(g_violCases < 25); h++) {
+      std::mt19937 rng(seed*1000003u + (unsigned) h); g_cases++;
+      IsoWorld iw; iw.Setup(); g_isoRuns++;
+      J hist = J::Arr(); J beh = J::Obj(); beh.set("id", J::Int(h));
+      FullView cur, nxt; std::set<std::string> all; all.insert("s1"); all.insert("s2"); all.insert("s3");
+      TakeView(iw, cur, all); iw.CheckMarksAndMirrors(cur.sn, "after the setup"); iw.CompareWithModel(cur.sn, init, "", false, "after the setup");
+      const bool logIt = (h < ntr); std::vector<std::string> tl; if (logIt) tl.push_back("{\"a\":\"Reset\"}");
+      for (int k=0; (k<nsteps)&&(iw.viol.empty()); k++) {
+         std::vector<Client *> alive; for (int i=0; i<3; i++) if ((iw.s[i]->connected)&&(iw.w.Attached(iw.s[i]))) alive.push_back(iw.s[i]);
+         if (alive.empty()) break;
+         Client * actor = alive[rng() % alive.size()]; J st = J::Obj(); char when[96]; g_isoSteps++;
+         if ((k > 2)&&((rng() % 12) == 0)) { // a departure, half the time in the middle of a Message
+            snprintf(when, sizeof(when), "step %d (Depart %s)", k+1, actor->name.c_str()); SetStage(when);
+            st.set("a", J::Str("Depart")).set("who", J::Str(actor->name)); hist.push(st); SetCur(mj::ToString(hist).substr(0, 6000));
+            if (rng() & 1) {MessageRef pm = Msg(PR_COMMAND_SETDATA); pm()->AddMessage("late", Msg(5)); const std::string wb = Wire(*pm()); const size_t n = 1 + (rng() % (wb.size()-1)); actor->Flush(); ssize_t r = write(actor->sock.GetFileDescriptor(), wb.data(), n); (void) r; if (rng() & 1) iw.w.PumpOnce();}
+            iw.w.Close(actor); iw.w.Settle();
+            // the remaining clients: nothing to prune (they did not unsubscribe)
+            nxt = FullView(); TakeView(iw, nxt, all);
+            CheckErased(iw, actor->name, &cur, nxt, when); cur = nxt; }
+         else { const size_t ci = rng() % menu.size();
+            snprintf(when, sizeof(when), "step %d (Cmd %s #%zu)", k+1, actor->name.c_str(), ci+1);
+            st.set("a", J::Str("Cmd")).set("who", J::Str(actor->name)).set("ci", J::Int((int64_t) ci+1)).set("cmd", menu[ci]); hist.push(st); SetCur(mj::ToString(hist).substr(0, 6000));
+            nxt = FullView(); DoCommandStep(iw, st, cur, nxt, when); cur = nxt; }
+         if (logIt) { // the observed state, flat, in the specification's vocabulary
+            Ranker rk; rk.Build(cur.sn.tree); const Snap sn = rk.Apply(cur.sn);
+            J o = J::Obj(); o.set("a", st["a"]).set("who", st["who"]); if (st.has("ci")) {o.set("ci", st["ci"]); o.set("op", st["cmd"]["op"]);}
+            J tree = J::Arr(); for (std::map<std::string, uint32>::const_iterator i = sn.tree.begin(); i != sn.tree.end(); ++i) {J e = J::Arr(); e.push(StrList(SplitPath(i->first))); e.push(J::Int(i->second)); tree.push(e);}
+            J idx = J::Arr(); for (std::map<std::string, std::string>::const_iterator i = sn.idx.begin(); i != sn.idx.end(); ++i) { if (i->second.empty()) continue; J e = J::Arr(); e.push(StrList(SplitPath(i->first)));
+               J names = J::Arr(); std::string c2; const std::string & l = i->second; for (size_t q=0; q<=l.size(); q++) {if ((q == l.size())||(l[q] == ',')) {names.push(J::Str(c2)); c2.clear();} else c2 += l[q];}
+               e.push(names); idx.push(e); }
+            J marks = J::Arr(); for (std::map<std::string, std::map<std::string, uint32> >::const_iterator i = sn.marks.begin(); i != sn.marks.end(); ++i) for (std::map<std::string, uint32>::const_iterator j = i->second.begin(); j != i->second.end(); ++j) if (j->second) {J e = J::Arr(); e.push(StrList(SplitPath(i->first))); e.push(J::Str(j->first)); e.push(J::Int(j->second)); marks.push(e);}
+            J params = J::Arr(); for (std::map<std::string, std::set<std::string> >::const_iterator i = sn.params.begin(); i != sn.params.end(); ++i) for (std::set<std::string>::const_iterator j = i->second.begin(); j != i->second.end(); ++j) {J e = J::Arr(); e.push(J::Str(i->first)); const size_t eq = j->find('='); e.push(J::Str(j->substr(0, eq))); e.push(J::Str(j->substr(eq+1))); params.push(e);}
+            J psub = J::Arr(); for (std::map<std::string, std::set<std::string> >::const_iterator i = sn.psub.begin(); i != sn.psub.end(); ++i) for (std::set<std::string>::const_iterator j = i->second.begin(); j != i->second.end(); ++j) {J e = J::Arr(); e.push(J::Str(i->first)); const bool abs = ((*j)[0] == '/'); e.push(J::Bool(abs)); e.push(StrList(SplitPath(abs ? *j : ("/" + *j)))); psub.push(e);}
+            J conn = J::Arr(); for (std::set<std::string>::const_iterator i = sn.conn.begin(); i != sn.conn.end(); ++i) conn.push(J::Str(*i));
+            J mir = J::Arr(); for (std::map<std::string, std::map<std::string, uint32> >::const_iterator i = sn.mirror.begin(); i != sn.mirror.end(); ++i) for (std::map<std::string, uint32>::const_iterator j = i->second.begin(); j != i->second.end(); ++j) {J e = J::Arr(); e.push(J::Str(i->first)); e.push(StrList(SplitPath(j->first))); e.push(J::Int(j->second)); mir.push(e);}
+            o.set("tree", tree).set("idx", idx).set("marks", marks).set("params", params).set("psub", psub).set("conn", conn).set("mirror", mir).set("h", J::Int(h)).set("k", J::Int(k+1));
+            tl.push_back(mj::ToString(o)); }
+      }
+      if ((!iw.viol.empty())||(!iw.drift.empty())) {if (!iw.viol.empty()) g_violCases++; beh.set("steps", hist); RepJ(IsoRow(beh, iw));}
+      else g_isoFollowed++;
+      if ((logIt)&&(iw.viol.empty())) {for (size_t i=0; i<tl.size(); i++) {fputs(tl[i].c_str(), tf); fputc('\n', tf); lines++;} traces++;}
+   }
+   fclose(tf);
+   J s = J::Obj(); s.set("summary", J::Bool(true)).set("histories", J::Int(g_cases)).set("clean", J::Int(g_isoFollowed)).set("violating_cases", J::Int(g_violCases)).set("steps", J::Int(g_isoSteps)).set("traces_written", J::Int(traces)).set("trace_lines", J::Int(lines)).set("wall_ms", J::Int((int64_t) ((Now()-t0)*1000)));
+   RepJ(s); return 0;
+}
